@@ -19,7 +19,10 @@ def main():
       continue
     job = json.loads(line)
     try:
-      res = c06_e2e.check_pair(job["src"], workdir, tuple(job.get("transports") or c06_e2e.TRANSPORTS))
+      if job.get("kind") == "chain":
+        res = c06_e2e.check_chain(job["chain"], workdir, tuple(job.get("transports") or c06_e2e.TRANSPORTS))
+      else:
+        res = c06_e2e.check_pair(job["src"], workdir, tuple(job.get("transports") or c06_e2e.TRANSPORTS))
     except Exception as e:  # pylint: disable=broad-except
       import traceback
       res = {"status": "harness-error", "what": "%s: %s" % (type(e).__name__, str(e)[:300]),
